@@ -36,6 +36,10 @@ pub struct HedgeCase {
     /// call max_hedged_attempts() on the builder after the delay setter instead of before it
     #[serde(default)]
     pub max_last: bool,
+    /// every fresh clone of the wrapped service needs this many ms before it is ready (0 = always
+    /// ready); the instance the caller polled ready is ready at once
+    #[serde(default)]
+    pub clone_ready_ms: u64,
 }
 
 fn one() -> u64 {
@@ -62,14 +66,17 @@ fn case_strategy(_tier: Tier) -> BoxedStrategy<HedgeCase> {
         prop::collection::vec(any::<u8>(), 0..=8),
         prop_oneof![6 => Just(1u64), 1 => Just(3u64), 1 => Just(7u64), 1 => Just(25u64), 1 => Just(60u64), 1 => 2u64..=120],
         any::<bool>(),
+        prop_oneof![3 => Just(0u64), 1 => 1u64..=40, 1 => (1u64..=8).prop_map(|k| k * 10)],
     )
-        .prop_map(|(max, delay, attempts, order, step_ms, max_last)| HedgeCase {
+        .prop_map(|(max, delay, attempts, order, step_ms, max_last, clone_ready_ms)| HedgeCase {
             max,
             delay,
             attempts,
             order,
             step_ms,
             max_last,
+            // coarse clock steps and paced readiness are generated separately
+            clone_ready_ms: if step_ms > 1 { 0 } else { clone_ready_ms },
         })
         .boxed()
 }
@@ -141,7 +148,7 @@ async fn interp(case: &HedgeCase) -> Verdict {
         b = b.max_hedged_attempts(case.max);
     }
     let layer = b.build();
-    let mut svc = layer.layer(inner.clone());
+    let mut svc = layer.layer(crate::svc::SlowClones::new(inner.clone(), case.clone_ready_ms));
     let req = Req {
         id: 0,
         key: 3,
@@ -153,7 +160,7 @@ async fn interp(case: &HedgeCase) -> Verdict {
     sim.settle().await;
     let total_delay: u64 = (1..case.max).map(|k| delay_ms(&case.delay, k)).sum();
     // every hedge may be seen up to one step late
-    let horizon = total_delay + 320 + (case.max as u64 + 2) * case.step_ms;
+    let horizon = total_delay + 320 + (case.max as u64 + 2) * case.step_ms + case.clone_ready_ms;
     let step = case.step_ms.max(1);
     let mut elapsed = 0;
     while elapsed < horizon {
@@ -202,12 +209,14 @@ async fn interp(case: &HedgeCase) -> Verdict {
         }
     }
     if all_zero && case.max > 1 && nstart > 0 {
-        // parallel mode: everything starts at once
-        if nstart != case.max || starts.iter().any(|s| s.0 != starts[0].0) {
+        // parallel mode: everything starts at once (hedges, which run on fresh clones, as soon as
+        // those are ready: all of them in the same instant)
+        let hedge_t = starts[0].0 + case.clone_ready_ms;
+        if nstart != case.max || starts.iter().skip(1).any(|s| s.0 != hedge_t) {
             violations.push(format!(
-                "parallel mode: expected {} attempts started at t={}, saw starts {:?}",
+                "parallel mode: expected {} attempts, the hedges all at t={}, saw starts {:?}",
                 case.max,
-                starts[0].0,
+                hedge_t,
                 starts.iter().map(|s| s.0).collect::<Vec<_>>()
             ));
         }
@@ -332,6 +341,9 @@ async fn interp(case: &HedgeCase) -> Verdict {
     }
     if case.step_ms > 1 {
         classes.push("coarse_clock_steps");
+    }
+    if case.clone_ready_ms > 0 {
+        classes.push("fresh_clones_need_time_to_become_ready");
     }
     Verdict {
         violations,
